@@ -131,7 +131,14 @@ def idiom_expr(rng, avail, cfg):
         return ("var", rng.choice(avail)) if avail else lit(rng)
     a, x, y = var(), var(), var()
     n = ("num", rng.choice([2, 3]), 0)
-    k = rng.randrange(19)
+    k = rng.randrange(21)
+    if k >= 19:
+        sig = ("div", ("num", 1, 0), ("add", ("num", 1, 0), ("fn", "exp", ("div", ("sub", x, a), small_lit(rng)))))
+        if k == 19:
+            # a quotient by the root of a reciprocal of something positive (sympy holds it as a power with exponent -1/2)
+            return ("div", y, ("fn", "sqrt", sig))
+        # the absolute value of something integer-valued (a C printer may pick the integer `abs`)
+        return ("div", ("fn", "abs", ("sub", ("fn", "floor", x), ("num", 3, 0))), ("num", 2, 0))
     if k >= 17:
         # powers of integer literals (a printer that spells them as products computes them in integer arithmetic)
         b = ("num", rng.choice([2, 3, 7, 10, 1291, 46341, 70000]), 0)
